@@ -85,7 +85,7 @@ func (c *c09) Meta() engine.Meta {
 		DeathIsViolation: true,
 		Technique:        "bounded-exhaustive enumeration of an input grammar against the real application at several states; oracle = no panic + liveness probe",
 		Rule: "inputs: (a) every byte string of length <= 2; (b) for a valid signed encoding of each of 13 base transactions (all 8 types, contract deploy and call, transfer to a contract): every prefix, every single-bit flip, every byte replaced by 00/7f/80/ff; (c) valid envelopes, RE-SIGNED by the sender, with every value of a per-field hostile menu (unknown / empty / 19 / 21 / 33 / 64-byte addresses, amounts 0 / 2^255 / 2^256-1 and, from a sender that can afford them, 2^249 and the power-arithmetic limits (2^60-1, 2^60, 2^63-1, 2^63, 2^64-1, 2^64, 2^64+5 RIGO), gas 0 / 2^63 / 2^64-1, prices, nonce 2^64-1, type 0 / 9 / -1 / 2^31-1, nil payload, payload of another type, 0 / 31 / 33-byte hashes, heights 0 / -1 / 2^63-1 / overflowing sums, option documents that are not JSON / deeply nested / wrong types / negative / huge numbers, empty option list, choice -1 / 2^31-1, 10 kB strings and code) — all single fields and all ordered pairs (thorough also at the fresh state, plus every pair of byte positions of each valid encoding replaced by 00/ff); (d) Query: 12 paths x 11 data shapes x 8 heights, plus vm_call with well-formed (from,to) over 3 senders x 14 targets (creation, EOA, unknown, two contracts, the nine precompiles) x 5 payloads x 7 heights. " +
-			"Delivered through CheckTx and, inside a block, through DeliverTx, at a fresh chain (after 2 blocks) and after 4 blocks of the dense history. vm_call runs with the RPC environment Tendermint installs in production (stub block store). " +
+			"Delivered through CheckTx and, inside a block, through DeliverTx, at a fresh chain (after 2 blocks) and after 4 blocks of the dense history; the mempool-check and query inputs additionally at a node that was RESTARTED after those 4 blocks and has not executed a block since. vm_call runs with the RPC environment Tendermint installs in production (stub block store). " +
 			"(e) delayed consequences: 29 governance option documents (negative, zero, maximal and overflowing values of every parameter, empty, unknown fields) are proposed, voted through and applied, followed by 6 busy blocks (staking, unstaking, evidence, missed signatures, withdrawals, a further proposal); and every hostile proposal SHAPE (option type on-chain / off-chain / unknown, no options, empty option, heights) delivered by a validator and followed by votes and 12 blocks. (f) every single deviation of the four shared history families (incl. evidence, missed signatures, proposer-less blocks): every ABCI call must return. Oracle: every call returns (a recovered panic or a dead worker process is a violation); after each batch the open block ends and commits, and a well-formed transfer in a following block succeeds. " +
 			"evaluations = input shards, counters.inputs = individual inputs; distinct_nontrivial = shards in which at least one input was ACCEPTED (code 0) and one rejected.",
 		Assumptions: []string{
@@ -446,6 +446,13 @@ func (c *c09) Prepare(tier string, seed int64) error {
 		}
 		c.cases = append(c.cases, c09Case{State: st, Chan: "query", Gen: "query", Shards: 1, Only: -1, Lv: 1})
 	}
+	// a node that was just restarted and has not yet executed a block: mempool checks and queries arrive before the first
+	// BeginBlock (which is what refills the in-memory helpers)
+	for t := 0; t < nb; t++ {
+		c.cases = append(c.cases, c09Case{State: "dense4+restart", Chan: "check", Gen: "mutate", Tmpl: t, Shards: 1, Only: -1, Lv: 1})
+		c.cases = append(c.cases, c09Case{State: "dense4+restart", Chan: "check", Gen: "hostile", Tmpl: t, Shards: 1, Only: -1, Lv: 1})
+	}
+	c.cases = append(c.cases, c09Case{State: "dense4+restart", Chan: "query", Gen: "query", Shards: 1, Only: -1, Lv: 1})
 	for o := range c09DelayedOptions() {
 		c.cases = append(c.cases, c09Case{State: "fresh", Chan: "deliver", Gen: "delayed", Tmpl: o, Shards: 1, Only: -1, Lv: 1})
 	}
@@ -502,6 +509,8 @@ func c09Genesis() *sim.Genesis {
 func (c *c09) prepareChain(state string) (*sim.RunResult, error) {
 	h := denseHistory(c09Genesis())
 	n := 2
+	restart := strings.HasSuffix(state, "+restart")
+	state = strings.TrimSuffix(state, "+restart")
 	if state == "dense4" {
 		n = 4
 	}
@@ -512,6 +521,17 @@ func (c *c09) prepareChain(state string) (*sim.RunResult, error) {
 	r := sim.Run(tmpRoot(), h, &sim.Hooks{NoStates: true})
 	if r.Err != "" || r.Chain.Dead {
 		return r, fmt.Errorf("prepare failed: %s %s", r.Err, r.Chain.DeadReason)
+	}
+	if restart {
+		nd := sim.NewDir(tmpRoot(), "c09restart")
+		r.Dirs = append(r.Dirs, nd)
+		n, err := r.Chain.Reopen(nd, true)
+		if err != nil {
+			return r, fmt.Errorf("restart failed: %v", err)
+		}
+		n.Log = r.Chain.Log
+		r.Chain = n
+		n.Info()
 	}
 	r.Chain.InstallRPCEnv()
 	return r, nil
@@ -633,6 +653,7 @@ func (c *c09) RunDesc(desc json.RawMessage) engine.Result {
 		return true
 	}
 	count := 0
+	npanics := 0
 	for i, x := range in {
 		if cs.Only >= 0 && i != cs.Only {
 			continue
@@ -656,7 +677,7 @@ func (c *c09) RunDesc(desc json.RawMessage) engine.Result {
 			}
 			if cs.Chan == "check" {
 				// half of the checks happen in the middle of a block
-				if i%2 == 0 {
+				if i%2 == 0 && !strings.HasSuffix(cs.State, "+restart") {
 					open()
 				}
 				rec = ch.CheckTxRaw(raw, x.Tag)
@@ -679,6 +700,12 @@ func (c *c09) RunDesc(desc json.RawMessage) engine.Result {
 			}
 			viol(i, "panic", cs.Chan+": "+panicSite(rec.Panic, rec.Log), fmt.Sprintf("%s at state %s with input #%d <%s> panicked: %s\n%s", cs.Chan, cs.State, i, tag, rec.Panic, rec.Log))
 			// continue on a fresh instance: a panicking instance may be poisoned
+			npanics++
+			if npanics >= 12 {
+				// the violation is recorded; re-opening the application after each of hundreds of further panics only burns time
+				res.Count("shards_cut_after_12_panics", 1)
+				break
+			}
 			if !reopen() {
 				return res
 			}
@@ -698,9 +725,12 @@ func (c *c09) RunDesc(desc json.RawMessage) engine.Result {
 			if !probe(i) && !reopen() {
 				return res
 			}
+			if strings.HasSuffix(cs.State, "+restart") && !reopen() { // the probe executed a block: restart again
+				return res
+			}
 		}
 	}
-	if !probe(len(in)) {
+	if npanics < 12 && !probe(len(in)) {
 		// already reported
 	}
 	res.Count("inputs", count)
